@@ -569,12 +569,12 @@ type vWSeq struct {
 	P string `valid:"phone,r9"`
 }
 
-func H_C02_same_type_three_calls() { vSameTypeThreeCalls("C02") }
+func H_C02_same_type_three_calls() { vSameTypeCalls("C02", 3) }
 
-func vSameTypeThreeCalls(prop string) {
+func vSameTypeCalls(prop string, ncalls int) {
 	known := vGlobalRules()
 	vUNoFail = true
-	for i := 0; i < 3; i++ {
+	for i := 0; i < ncalls; i++ {
 		o := &vWSeq{E: vStr("E" + vNum(i)), F: "f", I: vStr("I" + vNum(i)), P: "x"}
 		vULog = nil
 		r := vNewRef()
